@@ -51,7 +51,7 @@ static int status_of_x(const pv_mlang* L, const unsigned d[16], unsigned coin, b
         buf[k] = 0; in = pv_exact_str(buf); PV_COUNT("phrases.with_a_respelled_word", 1);
     } else in = phrase_of(L, d);
     polyseed_data* s = NULL;
-    if (arm) { pv_w->fail_countdown = 1; PV_COUNT("decodes.with_failing_allocator", 1); }
+    if (arm) { pv_arm_some_request(); PV_COUNT("decodes.with_failing_allocator", 1); }
     int st = pv_api_decode_explicit(in, coin, L->lib, &s);
     pv_w->fail_countdown = 0;
     if (st == POLYSEED_OK) { if (!s) pv_violation("C02/ok-without-seed", "%s: decode_explicit returned OK but wrote no seed%s", L->name_en, arm ? " (allocator refusing its next request)" : ""); else pv_api_free(s); }
